@@ -13,16 +13,28 @@
     * the NATIVE commands the bodies call, each transcribed from its `mod.rs`:
         collection commands                → `Coll.exec` (Sdk/Collections.lean) + the message texts
         std/string/equals, std/var/is_defined, std/var/set (incl. the `or` form)
+        std/string/length (`strlen`), std/string/is_empty, std/string/substring
+                                           → `Strings.length / isEmpty / substring` (Sdk/Strings.lean,
+                                             UTF-8 BYTE lengths and offsets; the slice is decoded
+                                             back by `utf8Decode`) + the message texts
+        std/math/calc                      → the grammar and the Int / Float evaluation of
+                                             Sdk/Calc.lean (`Calc.lex / parse / evalT`); the text
+                                             handed back is `f64::to_string` of a WHOLE value
+                                             below 2^53 (`3`, `-2`: what `calc ${counter} + 1` and
+                                             `calc ${stringlen} - ${separatorlen}` produce); any
+                                             other calc answer is outside this model (crash text
+                                             `calcUnmodelledMsg`, never a silent default)
       their spellings come from the regenerated `Generated/ScriptCallees.lean`.
 
   Flow control inside a body (`for … in`, `if` / `else` / `end`, `not`, command conditions) is a
   SEPARATE INSTANCE of the commands of Sdk/Flow.lean over this file's state (same transcription,
   `Cmd` / `Sdk` of Flow.lean untouched): section "flow control".  `trigger_error`, `release`,
   `set_by_name`, `array`, `array_push`, `set_new`, `set_put`, `map_keys`, `is_array` are there too,
-  so `concat`, `unset`, `set_from_array`, `array_concat`, `map_contains_value` RUN (driver op
-  `srun`, compared with the real commands); theorems exist for the loop-free scripts only.
-  Not modelled: `calc`, `strlen`, `substring`, `is_empty` (array_contains, array_join) and the
-  file/network/OS callees of the remaining scripts.
+  so `concat`, `unset`, `set_from_array`, `array_concat`, `map_contains_value`, `array_contains`,
+  `array_join` RUN (driver op `srun`, compared with the real commands: all nine collection
+  scripts); ∀-theorems exist for the loop-free scripts, evaluated instances for the others
+  (Props/C12Scripts.lean, Props/C12ScriptsNatives.lean).
+  Not modelled: the file/network/OS callees of the remaining scripts.
 
   State `ScriptSt`: the handle table of the collection model (`Coll.St`), the line-context
   name and the flow-control state.  The wrapper's temporary `::arguments` array is a REAL handle of that table
@@ -35,6 +47,9 @@ import DuckModel.Sdk.AliasCmd
 import DuckModel.Sdk.Collections
 import DuckModel.Sdk.Condition
 import DuckModel.Sdk.Flow
+import DuckModel.Sdk.Strings
+import DuckModel.Sdk.Utf8Decode
+import DuckModel.Sdk.Calc
 import DuckModel.Generated.Scripts
 import DuckModel.Generated.ScriptCallees
 
@@ -152,9 +167,105 @@ def runSetByName (args : List Str) (vars : Vars) : CmdResult × Vars :=
   | [n] => (.continue none, vars.erase n)
   | n :: v :: _ => (.continue (some v), vars.set n v)
 
+/-! ### string / math callees (array_contains, array_join) -/
+
+/-- std/string/length (`strlen`, `length`): `arguments[0].len()` = number of UTF-8 BYTES -/
+def runLength (args : List Str) : CmdResult :=
+  match Strings.length args with
+  | .nat n => .continue (some (natStr n))
+  | _ => .error (msg "No argument provided.")
+
+/-- std/string/is_empty: no argument counts as empty -/
+def runIsEmpty (args : List Str) : CmdResult :=
+  match Strings.isEmpty args with
+  | .bool b => .continue (some (boolStr b))
+  | _ => .error (msg "<model: is_empty never fails>")
+
+/-- the `Error` text of std/string/substring: the first failing check of its `run`
+    (`Strings.substring` answers the class `err` only) -/
+def substringErrMsg (args : List Str) : Str :=
+  let nonNumeric (a : Str) : Str := msg "Non numeric value: " ++ a ++ msg " provided."
+  let startBig := msg "Start index cannot be bigger than total text size."
+  let boundary := msg "Index is not on a character boundary of the text."
+  match args with
+  | [] => msg "No arguments provided."
+  | [_] => boundary
+  | [s, a] =>
+    match Strings.parseI64 a with
+    | none => nonNumeric a
+    | some v =>
+      if v ≥ 0 then (if v > ((Strings.enc s).length : Int) - 1 then startBig else boundary)
+      else if ((Strings.enc s).length : Int) + v < 0 then msg "Index from end cannot be bigger than total text size."
+      else boundary
+  | s :: a :: b :: _ =>
+    match Strings.parseI64 a with
+    | none => nonNumeric a
+    | some st =>
+      if st > ((Strings.enc s).length : Int) - 1 then startBig
+      else
+        match Strings.parseI64 b with
+        | none => nonNumeric b
+        | some en =>
+          if en ≥ st then
+            if en > ((Strings.enc s).length : Int) - 1 then msg "End index cannot be bigger than total text size."
+            else if st < 0 then msg "Start index cannot be negative."
+            else boundary
+          else msg "End index cannot be smaller than start index."
+
+def substringDecodeMsg : Str := msg "<model: slice of a string is not UTF-8>"
+
+/-- std/string/substring: BYTE offsets into the UTF-8 text, `str::get(start..end)` (an offset
+    inside a character is an `Error`); the slice, being cut at character boundaries, decodes -/
+def runSubstring (args : List Str) : CmdResult :=
+  match Strings.substring args with
+  | .str b =>
+    match utf8Decode b with
+    | some t => .continue (some t)
+    | none => .crash substringDecodeMsg
+  | _ => .error (substringErrMsg args)
+
+/-- what std/math/calc hands back: `eval_number(arguments.join(" "))` printed by `f64::to_string` -/
+inductive CalcOut
+  | text (t : Str)
+  | err (m : Str)
+  | unmodelled
+deriving DecidableEq, Repr
+
+/-- `i64` / whole `f64` below 2^53 through `to_string`: plain decimal digits, no `.0`, no exponent -/
+def intText (v : Int) : Str := (toString v).toList
+
+/-- the class of Sdk/Calc.lean (grammar `+ - * ^ ( )` over decimal literals, checked `i64`
+    arithmetic, exact `f64` arithmetic) restricted to results whose TEXT is beyond doubt: a whole
+    value of magnitude below 2^53 (an `Int` is converted by `as f64`; a `Float` zero may be `-0`
+    and is left out).  evalexpr's own error texts are not transcribed. -/
+def calcOut (args : List Str) : CalcOut :=
+  if args = [] then .err (msg "Missing input.")
+  else
+    match Calc.lex (Calc.joinArgs args) with
+    | none => .unmodelled
+    | some ts =>
+      match Calc.parse ts with
+      | none => .unmodelled
+      | some e =>
+        match Calc.evalT e with
+        | none => .err (msg "evalexpr error")
+        | some (.int v) => if v.natAbs < Calc.two53 then .text (intText v) else .unmodelled
+        | some (.flt q exact) =>
+          if exact && Calc.fits q && q.den == 1 && q.num != 0 then .text (intText q.num) else .unmodelled
+
+def calcUnmodelledMsg : Str := msg "<model: calc expression or result outside the modelled class>"
+
+/-- std/math/calc -/
+def runCalc (args : List Str) : CmdResult :=
+  match calcOut args with
+  | .text t => .continue (some t)
+  | .err m => .error m
+  | .unmodelled => .crash calcUnmodelledMsg
+
 inductive Native
   | coll (c : CollCmd)
   | equals | isDefined | set | triggerError | setByName
+  | calc | length | substring | isEmpty
 deriving DecidableEq, Repr
 
 /-- the flow-control commands (dispatched by `bodySem`, they need the body's instruction list) -/
@@ -181,6 +292,10 @@ def resolveNative (name : Str) : Option Native :=
   else if calleeNamesSet.contains name then some .set
   else if name = msg "trigger_error" || name = msg "std::error::TriggerError" then some .triggerError
   else if calleeNamesSetByName.contains name then some .setByName
+  else if calleeNamesCalc.contains name then some .calc
+  else if calleeNamesLength.contains name then some .length
+  else if calleeNamesSubstring.contains name then some .substring
+  else if calleeNamesIsEmpty.contains name then some .isEmpty
   else none
 
 def runNative (n : Native) (args : List Str) (vars : Vars) (st : ScriptSt) : CmdResult × Vars × ScriptSt :=
@@ -191,6 +306,10 @@ def runNative (n : Native) (args : List Str) (vars : Vars) (st : ScriptSt) : Cmd
   | .set => (runSet args, vars, st)
   | .triggerError => (runTriggerError args, vars, st)
   | .setByName => ((runSetByName args vars).1, (runSetByName args vars).2, st)
+  | .calc => (runCalc args, vars, st)
+  | .length => (runLength args, vars, st)
+  | .substring => (runSubstring args, vars, st)
+  | .isEmpty => (runIsEmpty args, vars, st)
 
 /-! ## script-implemented commands from their source -/
 
